@@ -26,7 +26,7 @@ NodeOK(n, env) ==
 Verdict(ev) ==
     LET t == FromJTree(ev.tree)
         want(c) == \E i \in DOMAIN ev.checks : ev.checks[i] = c
-        wfOK == WellFormed(t)
+        wfOK == ~UnresJ(ev.tree) /\ WellFormed(t)
     IN \* an ill-formed tree cannot be evaluated (its operations may refer to
        \* columns that do not exist): it is rejected on clause wf alone
        IF ~wfOK THEN [wf |-> FALSE, den |-> TRUE, denbag |-> TRUE, denlist |-> TRUE, meta |-> TRUE, coh |-> TRUE]
